@@ -24,7 +24,7 @@ def variants():
         m = json.load(open(os.path.join(d, "meta.json")))
         if m.get("open_miss"):
             continue        # a confirmed change no check reports yet (recorded in DESIGN.md); not an expectation of the matrix
-        out.append(("S" + os.path.basename(d), os.path.join(d, "patch.diff"), "fire-or-closed" if m.get("fails_closed") else "fire", [m["property"]]))
+        out.append(("S" + os.path.basename(d), os.path.join(d, "patch.diff"), "fire-or-closed" if m.get("fails_closed") else "fire", m.get("expect_props") or [m["property"]]))
     for p in sorted(glob.glob(os.path.join(VERIF, "selftest", "C*", "*.patch"))):
         m = json.load(open(p[:-6] + ".json"))
         out.append(("H%s-%s" % (m["property"], os.path.basename(p)[:-6]), p, "fire", [m["property"]]))
